@@ -22,17 +22,26 @@ pub fn ch(excl: &'static [char]) -> impl Strategy<Value = char> {
     .prop_map(move |c| if excl.contains(&c) || c == '\0' { 'x' } else { c })
 }
 
-/// Text of 0..=max chars with a skew to short strings; never contains NUL or `excl`.
+/// Values that real servers send as placeholders and that clients are tempted to treat specially.
+pub const NOTABLE: &[&str] = &[
+    "Anonymous Player", "Unknown", "unknown", "Player", "player", "unnamed", "UnnamedPlayer", "Unknown Soldier", "bot", "BOT", "Bot", "[BOT]", "Spectator", "spectator", "console",
+    "Server", "null", "None", "N/A", "-", "?", "00000000-0000-0000-0000-000000000000",
+];
+
+/// Text of 0..=max chars with a skew to short strings; never contains NUL or `excl`. One in twenty is a well-known
+/// placeholder value (`NOTABLE`).
 pub fn text(excl: &'static [char], max: usize) -> impl Strategy<Value = String> {
     let max = max.max(2);
-    prop_oneof![
+    let generated = prop_oneof![
         2 => Just(0usize..1),
         6 => Just(1usize..9),
         4 => Just(8usize..(40.min(max) + 1).max(10)),
         1 => Just(max / 2..max + 1),
     ]
     .prop_flat_map(move |r| prop::collection::vec(ch(excl), r))
-    .prop_map(|v| v.into_iter().collect::<String>())
+    .prop_map(|v| v.into_iter().collect::<String>());
+    let notable = prop::sample::select(NOTABLE).prop_map(move |s| s.chars().map(|c| if excl.contains(&c) { 'x' } else { c }).take(max).collect::<String>());
+    prop_oneof![19 => generated, 1 => notable]
 }
 
 /// Non-empty ASCII identifier-like key.
